@@ -10,11 +10,13 @@
    bottom invariant means the block is never entered.  The check runs fwd_check on the
    engine model's result (which equals the implementation's result on every generated
    program) and on the implementation's own exported invariants.
-   C01_engine_statement (the engine model's result is always accepted) is corresponded,
-   not proved. *)
+   (3) the engine model itself is sound (C01_engine_sound...): no checker is needed for the
+   modelled configuration; the checker remains the tie for configurations outside the mirror
+   (thresholds, liveness pruning) and for the implementation's own output. *)
 From Coq Require Import ZArith List Bool Arith.
 From CrabV Require Import Base.ZInf Scalar.Itv Ir.Syntax Ir.Cfg Dom.ItvEnv Dom.ItvEnvSound Dom.ItvDomain
-     Fix.Wto Fix.Engine Fix.EngineCheck Ana.Transformer Ana.FwdItv Ana.FwdItvSound.
+     Fix.Wto Fix.Engine Fix.EngineCheck Ana.Transformer Ana.FwdItv Ana.FwdItvSound
+     Fix.WtoCheck Fix.WtoSound Fix.WtoRoot Fix.EngineBelow Fix.EngineRel Fix.EngineSound Ana.FwdItvEngineSound.
 Import ListNotations.
 
 Theorem C01_statement_transformer_sound : forall s e a b,
@@ -42,10 +44,115 @@ Theorem C01_bottom_block_never_entered :
   forall n, e_is_bot (pre n) = true -> forall s, ~ ReachPre p entry use_asm asm Init n s.
 Proof. intros. eapply bottom_block_never_entered; eauto. Qed.
 
-Definition C01_engine_statement : Prop :=
-  forall p w entry delay desc use_asm asm fuel init e,
-    fwd_run p w entry delay desc use_asm asm fuel init = Some e ->
-    fwd_check p entry use_asm asm init (e_pre env e) (e_post env e) = true.
+(* ---- the engine itself (Fix/EngineSound.v): for every CFG, every well-formed weak topological
+   ordering (in particular the one wto.hpp builds, C07), every start block of the ordering, every
+   widening delay, number of descending iterations, assumption map and fuel, the tables of a
+   terminated run contain the collecting semantics.  No hypothesis on widening, on monotonicity of
+   the transformers or on the checker.  Termination: Properties_C05. ---- *)
+(* the engine, any abstract domain, any start block of the ordering *)
+Theorem C01_engine_sound_any_domain :
+  forall (A State : Type) (gamma : A -> State -> Prop) (OP : aops A),
+  (forall a b s, gamma a s -> gamma (o_join A OP a b) s) ->
+  (forall a b s, gamma b s -> gamma (o_join A OP a b) s) ->
+  (forall a b s, gamma a s -> gamma b s -> gamma (o_meet A OP a b) s) ->
+  (forall a b s, gamma a s -> gamma b s -> gamma (o_narrow A OP a b) s) ->
+  (forall a b s, o_leq A OP a b = true -> gamma a s -> gamma b s) ->
+  forall (analyze : nat -> A -> A) (bstep : nat -> State -> State -> Prop),
+  (forall n a s s', gamma a s -> bstep n s s' -> gamma (analyze n a) s') ->
+  forall (preds nest : nat -> list nat) (entry delay descending : nat) (use_asm : bool)
+         (asm : nat -> option A) (Init : State -> Prop) (init : A),
+  (forall s, Init s -> gamma init s) ->
+  forall (fuel : nat) (w : list comp),
+  NoDup (flat w) ->
+  (forall n p, In p (preds n) -> In p (flat w) -> In n (flat w) /\ lok w p n) ->
+  In entry (flat w) ->
+  forall e, run A OP analyze preds nest entry delay descending use_asm asm init fuel w = Some e ->
+  (forall n s, RPre A State gamma bstep preds entry use_asm asm Init n s -> gamma (e_pre A e n) s) /\
+  (forall n s, RPost A State gamma bstep preds entry use_asm asm Init n s -> gamma (e_post A e n) s).
+Proof. exact engine_sound. Qed.
+Print Assumptions C01_engine_sound_any_domain.
+
+(* the interval analyzer on the ordering built from the start block: crab's run(init) *)
+Theorem C01_engine_sound :
+  forall p, prog_wfb p = true ->
+  forall use_asm asm (Init : store -> Prop) init, (forall s, Init s -> genv init s) ->
+  forall delay desc fuel entry w e,
+  build (p_graph p) entry = Some w ->
+  fwd_run p w entry delay desc use_asm asm fuel init = Some e ->
+  (forall n s, ReachPre p entry use_asm asm Init n s -> genv (e_pre env e n) s) /\
+  (forall n s, ReachPost p entry use_asm asm Init n s -> genv (e_post env e n) s).
+Proof. exact fwd_run_sound. Qed.
+Print Assumptions C01_engine_sound.
+
+(* ... started at any block of the ordering built from e0: crab's run(entry, init, assumptions) *)
+Theorem C01_engine_sound_any_entry :
+  forall p, prog_wfb p = true ->
+  forall use_asm asm (Init : store -> Prop) init, (forall s, Init s -> genv init s) ->
+  forall delay desc fuel e0 entry w e,
+  build (p_graph p) e0 = Some w -> In entry (flat w) ->
+  fwd_run p w entry delay desc use_asm asm fuel init = Some e ->
+  (forall n s, ReachPre p entry use_asm asm Init n s -> genv (e_pre env e n) s) /\
+  (forall n s, ReachPost p entry use_asm asm Init n s -> genv (e_post env e n) s).
+Proof. exact fwd_run_sound_any_entry. Qed.
+Print Assumptions C01_engine_sound_any_entry.
+
+Theorem C01_engine_sound_any_wellformed_wto :
+  forall p, prog_wfb p = true ->
+  forall use_asm asm (Init : store -> Prop) init, (forall s, Init s -> genv init s) ->
+  forall delay desc fuel e0 nst dom w entry e,
+  WF (p_graph p) e0 w nst dom ->
+  In entry (flat w) ->
+  fwd_run p w entry delay desc use_asm asm fuel init = Some e ->
+  (forall n s, ReachPre p entry use_asm asm Init n s -> genv (e_pre env e n) s) /\
+  (forall n s, ReachPost p entry use_asm asm Init n s -> genv (e_post env e n) s).
+Proof. exact fwd_run_sound_WF. Qed.
+Print Assumptions C01_engine_sound_any_wellformed_wto.
+
+Theorem C01_engine_bottom_block_never_entered :
+  forall p, prog_wfb p = true ->
+  forall use_asm asm (Init : store -> Prop) init, (forall s, Init s -> genv init s) ->
+  forall delay desc fuel e0 entry w e,
+  build (p_graph p) e0 = Some w -> In entry (flat w) ->
+  fwd_run p w entry delay desc use_asm asm fuel init = Some e ->
+  forall n, e_is_bot (e_pre env e n) = true -> forall s, ~ ReachPre p entry use_asm asm Init n s.
+Proof. exact fwd_run_bottom_unreachable. Qed.
+Print Assumptions C01_engine_bottom_block_never_entered.
+
+Example C01_engine_sound_example :
+  let x := 0%N in
+  let p := mkProg [[SAssign x (mkLE [] 0)];
+                   [];
+                   [SAssume (mkLC INEQ (mkLE [(1%Z, x)] (-9))); SArith OpAdd x x (OCst 1)];
+                   [SAssume (mkLC INEQ (mkLE [((-1)%Z, x)] 10))]]
+                  [(0,1); (1,2); (2,1); (1,3)] in
+  prog_wfb p = true /\
+  exists w e, build (p_graph p) 0 = Some w /\
+    fwd_run p w 0 2 1 false (fun _ => None) 100 e_top = Some e /\
+    e_at (e_post env e 3) x = mkI (Fin 10) (Fin 10) /\
+    forall s, ReachPost p 0 false (fun _ => None) (fun _ => True) 3 s -> genv (e_post env e 3) s.
+Proof. exact fwd_run_sound_example. Qed.
+Print Assumptions C01_engine_sound_example.
+
+(* the analysis starts strictly inside a loop (entry_ok = false): pre(b2) = [0,+oo],
+   pre(b1) = [1,+oo], as the repaired C++ prints *)
+Example C01_entry_in_loop_example :
+  let x := 0%N in
+  let p := mkProg [[SAssign x (mkLE [] 5)];
+                   [];
+                   [SArith OpAdd x x (OCst 1)];
+                   []]
+                  [(0,1); (1,2); (2,1); (1,3)] in
+  let init := e_set e_top x (mkI (Fin 0) (Fin 0)) in
+  let Init := fun s : store => s x = 0%Z in
+  prog_wfb p = true /\ (forall s, Init s -> genv init s) /\
+  exists w e, build (p_graph p) 0 = Some w /\ In 2 (flat w) /\ entry_ok 2 w = false /\
+    fwd_run p w 2 1 1 false (fun _ => None) 100 init = Some e /\
+    e_at (e_pre env e 2) x = mkI (Fin 0) PInf /\
+    e_at (e_pre env e 1) x = mkI (Fin 1) PInf /\
+    (forall n s, ReachPre p 2 false (fun _ => None) Init n s -> genv (e_pre env e n) s) /\
+    (forall s, Init s -> genv (e_pre env e 2) s).
+Proof. exact fwd_run_entry_in_loop_example. Qed.
+Print Assumptions C01_entry_in_loop_example.
 
 (* non-vacuity: x := 0; while (x <= 9) x := x + 1 — the model's tables are accepted and
    bound x at the loop exit *)
